@@ -75,7 +75,12 @@ def pit_columns(model, desc, x):
 
 
 def rs_of(kind, seed):
-    return None if kind == "none" else (int(seed) if kind == "int" else np.random.default_rng(int(seed)))
+    """random_state of the given kind; "int0" is the integer seed 0 (legal, but falsy in Python)"""
+    if kind == "none":
+        return None
+    if kind == "int0":
+        return 0
+    return int(seed) if kind == "int" else np.random.default_rng(int(seed))
 
 
 def model_key(c):
@@ -91,7 +96,7 @@ def get_model(c):
 
 def ks_task(c):
     """c: model case (n_dim >= 2) or univariate case (n_dim == 1), n, rs kind"""
-    rec = dict(kind="ks", exc="", n=c["n"], overall=[], given=[], indep=[], finite=True)
+    rec = dict(kind="ks", exc="", n=c["n"], overall=[], given=[], indep=[], extreme=[], finite=True)
     np.random.seed((c["seed"] + 17) % (2**32 - 1))
     try:
         if c["n_dim"] == 1:
@@ -130,6 +135,101 @@ def ks_task(c):
                  colsens=bool(desc) and M.column_sensitive(desc))]
 
 
+# ---- fitted models ---------------------------------------------------------------------------
+
+def _p3(x, a, b, c):
+    return a + b * x ** c
+
+
+def _e3(x, a, b, c):
+    return a + b * np.exp(c * x)
+
+
+def _lin(x, a, b):
+    return a + b * x
+
+
+def _structure(vc, n_dim, truth, rng=None):
+    """Hs-Tz(-third variable) structure with fit-capable dependence functions; truth=True sets the
+    generating parameters (randomised a little), truth=False leaves everything to fit()"""
+    bounds = [(0, None), (0, None), (None, None)]
+    mu, sigma = vc.DependenceFunction(_p3, bounds), vc.DependenceFunction(_e3, bounds)
+    if truth:
+        f = rng.uniform(0.85, 1.2, size=8)
+        mu.parameters = {"a": 0.1 * f[0], "b": 1.489 * f[1], "c": 0.1901 * f[2]}
+        sigma.parameters = {"a": 0.04 * f[3], "b": 0.1748 * f[4], "c": -0.2243}
+        d0 = vc.WeibullDistribution(alpha=2.776 * f[5], beta=1.471 * f[6], gamma=0.0)
+    else:
+        d0 = vc.WeibullDistribution(f_gamma=0.0)
+    dd = [{"distribution": d0, "intervals": vc.WidthOfIntervalSlicer(width=0.5, min_n_points=50)},
+          {"distribution": vc.LogNormalDistribution(), "conditional_on": 0, "parameters": {"mu": mu, "sigma": sigma},
+           "intervals": vc.WidthOfIntervalSlicer(width=1.0, min_n_points=50)}]
+    if n_dim == 3:
+        m3, s3 = vc.DependenceFunction(_lin), vc.DependenceFunction(_e3, bounds)
+        if truth:
+            m3.parameters = {"a": 1.0 * f[7], "b": 0.8}
+            s3.parameters = {"a": 0.3, "b": 1.0, "c": -0.15}
+        dd.append({"distribution": vc.NormalDistribution(), "conditional_on": 1, "parameters": {"mu": m3, "sigma": s3}})
+    return vc.GlobalHierarchicalModel(dd)
+
+
+def fitted_task(c):
+    """fit a model (to data drawn from a known model of the same structure, or to the shipped
+    sea-state data set A with the predefined DNVGL structure), then sample from the FITTED model and
+    judge the PIT per conditioning region -- in particular the rows whose conditioning value lies
+    outside the range of the interval reference values the fit has seen"""
+    vc = import_virocon()
+    rec = dict(kind="ks", exc="", n=c["n"], overall=[], given=[], indep=[], extreme=[], finite=True)
+    info = {}
+    try:
+        with warnings.catch_warnings():
+            warnings.simplefilter("ignore")
+            if c["source"] == "dataset":
+                from .common import REPO
+                data = vc.read_ec_benchmark_dataset(str(REPO / "datasets" / "ec-benchmark_dataset_A_1year.txt"))
+                dd, fd, _ = vc.get_DNVGL_Hs_Tz()
+                model = vc.GlobalHierarchicalModel(dd)
+                model.fit(np.asarray(data), fd)
+            else:
+                rng = np.random.default_rng(c["seed"])
+                truth = _structure(vc, c["n_dim"], True, rng)
+                data = truth.draw_sample(c["n_data"], random_state=c["seed"] + 1)
+                model = _structure(vc, c["n_dim"], False)
+                model.fit(data)
+            x = np.asarray(model.draw_sample(c["n"], random_state=rs_of(c["rs"], c["seed"] + 2)), dtype=float)
+        n_dim = model.n_dim
+        rec["finite"] = bool(np.all(np.isfinite(x))) and x.shape == (c["n"], n_dim)
+        if rec["finite"]:
+            u = np.empty_like(x)
+            for i in range(n_dim):
+                d, cc = model.distributions[i], model.conditional_on[i]
+                with warnings.catch_warnings():
+                    warnings.simplefilter("ignore")
+                    u[:, i] = d.cdf(x[:, i]) if cc is None else d.cdf(x[:, i], given=x[:, cc])
+            for i in range(n_dim):
+                rec["overall"].append([int(len(u)), d5(ks_uniform(u[:, i]))])
+                cc = model.conditional_on[i]
+                if cc is None:
+                    continue
+                g = x[:, cc]
+                refs = np.asarray(model.distributions[i].conditioning_values, dtype=float)
+                lo, hi = float(refs.min()), float(refs.max())
+                inside = (g >= lo) & (g <= hi)
+                rec["given"].extend(binned(u[inside, i], g[inside]))
+                for name, mask in (("below", g < lo), ("above", g > hi)):
+                    m = int(mask.sum())
+                    info[f"dim{i}_{name}"] = m
+                    if m:
+                        rec["extreme"].append([m, d5(ks_uniform(u[mask, i]))])
+                for k in range(i):
+                    rec["indep"].extend(binned(u[:, i], u[:, k]))
+    except Exception as e:  # noqa
+        rec["exc"] = f"{type(e).__name__}: {e}"[:200]
+    key = (f"fitted source={c['source']} n_dim={c['n_dim']} n={c['n']} random_state={c['rs']} seed={c['seed']}")
+    big = sum(1 for t in rec["extreme"] if t[0] >= 400)
+    return [dict(rec=rec, key=key, nontrivial=big > 0, case=c, extreme_regions=big, info=info)]
+
+
 def shape_task(c):
     out = []
     np.random.seed((c["seed"] + 3) % (2**32 - 1))
@@ -142,7 +242,7 @@ def shape_task(c):
         obj, desc = get_model(c)
         name = model_key(c)
     for n in c["sizes"]:
-        for rs in ("none", "int", "generator"):
+        for rs in ("none", "int", "int0", "generator"):
             rec = dict(kind="shape", exc="", n=int(n), ndim=0 if c["n_dim"] == 1 else c["n_dim"], shape=[], finite=True)
             try:
                 with warnings.catch_warnings():
@@ -211,7 +311,7 @@ def hist_task(c):
 
 
 def run_task(c):
-    return {"ks": ks_task, "shape": shape_task, "hist": hist_task}[c["task"]](c)
+    return {"ks": ks_task, "shape": shape_task, "hist": hist_task, "fitted": fitted_task}[c["task"]](c)
 
 
 # ---- case selection ------------------------------------------------------------------------
@@ -253,6 +353,27 @@ def make_tasks(ctx, cfgs, hists):
         for cfg in by_n[3]:             # all 384 (a stride would alias with the shape-class enumeration)
             k += 1
             tasks.append(dict(base(cfg), task="ks", rs=rskinds[k % 3], n=nbig if (k % 5 == 0) else 100_000))
+    # integer seed 0 (falsy): components sampled by the same mechanism must still be independent --
+    # every 2-D configuration and a rotating third of the 3-D ones with all dimensions of ONE family
+    same = ["weibull", "expweibull", "lognormal", "normal", "gengamma"]
+    for rep in range(ctx.pick(1, 3)):
+        for cfg in by_n[2]:
+            k += 1
+            tasks.append(dict(base(cfg), task="ks", rs="int0", n=100_000, families=[same[k % len(same)]] * 2))
+        for idx, cfg in enumerate(by_n[3]):
+            if (idx + rep + ctx.seed) % 3 == 0:
+                k += 1
+                tasks.append(dict(base(cfg), task="ks", rs="int0", n=100_000, families=[same[k % len(same)]] * 3))
+    for fam in M.FAMILIES:
+        tasks.append(dict(task="ks", n_dim=1, cond=[None], sh=[0], families=[fam], rs="int0",
+                          seed=int(rng.integers(1, 2**31 - 1)), n=100_000))
+    # fitted models (conditioning_values set by fit()): synthetic 2-D / 3-D and the shipped data set A
+    for rep in range(ctx.pick(2, 8)):
+        for nd in (2, 3):
+            tasks.append(dict(task="fitted", source="synthetic", n_dim=nd, n_data=20000, n=ctx.pick(200_000, 400_000),
+                              rs=["int", "int0", "generator", "none"][(rep + nd) % 4],
+                              seed=int(rng.integers(1, 2**31 - 1))))
+    tasks.append(dict(task="fitted", source="dataset", n_dim=2, n=ctx.pick(200_000, 1_000_000), rs="int", seed=ctx.seed + 5))
     # shapes: sizes 1, 2, 1000, 1e5 (1e6) x random_state kinds, every family and a few models
     sizes = [1, 2, 1000, 100_000] + ([1_000_000] if not ctx.quick else [])
     for fam in M.FAMILIES:
@@ -266,7 +387,7 @@ def make_tasks(ctx, cfgs, hists):
         a = (j + ctx.seed) % P
         b = (a + 1 + (j // P) % (P - 1)) % P
         tasks.append(dict(task="hist", draws=h, objs=[a, b], pool_seed=ctx.seed + 99,
-                          seed_a=1000 + ctx.seed, seed_b=2000 + ctx.seed, seed_c=3000 + ctx.seed,
+                          seed_a=0, seed_b=2000 + ctx.seed, seed_c=3000 + ctx.seed,
                           global_seed=(ctx.seed + 4242 + j) % (2**32 - 1)))
     return tasks
 
@@ -286,7 +407,8 @@ def judge(ctx, results, label):
         ctx.case(o["key"], nontrivial=o["nontrivial"])
         for clause in failing.get(rec["id"], []):
             if rec["kind"] == "ks":
-                worst = {f: max((t[1] for t in rec[f]), default=0) for f in ("overall", "given", "indep")}
+                worst = {f: max((t[1] for t in rec[f]), default=0) for f in ("overall", "given", "extreme", "indep")}
+                worst["extreme regions [n, d5]"] = rec["extreme"]
                 detail = f"exc={rec['exc']} n={rec['n']} max distance (1e-5) {worst} finite={rec['finite']}"
             else:
                 detail = str({k: rec[k] for k in rec if k not in ("id", "kind")})
@@ -299,7 +421,8 @@ def selftest(ctx):
     draws = [dict(obj=1, n=4, rs="seedA"), dict(obj=1, n=4, rs="seedA"), dict(obj=1, n=4, rs="seedB")]
     gd = [dict(obj=1, n=4, rs="gen1"), dict(obj=1, n=4, rs="gen2"), dict(obj=1, n=4, rs="gen1")]
     nn = [dict(obj=1, n=4, rs="none"), dict(obj=2, n=4, rs="seedA"), dict(obj=1, n=4, rs="none")]
-    ok = dict(kind="ks", exc="", n=100000, overall=[[100000, 1100]], given=[[12500, 3300]], indep=[], finite=True)
+    ok = dict(kind="ks", exc="", n=100000, overall=[[100000, 1100]], given=[[12500, 3300]], indep=[],
+              extreme=[[4000, 5900]], finite=True)
     muts = [("SameSeedSameSample", dict(kind="hist", exc="", draws=draws, dig=[1, 2, 3])),
             ("DifferentSeedsDiffer", dict(kind="hist", exc="", draws=draws, dig=[1, 1, 1])),
             ("GeneratorAdvances", dict(kind="hist", exc="", draws=gd, dig=[1, 1, 1])),
@@ -311,6 +434,7 @@ def selftest(ctx):
             ("SampleFollowsCdf", dict(ok, overall=[[100000, 1200]])),
             ("ConditionalOnSameRowValue", dict(ok, given=[[12500, 3400]])),
             ("ComponentsIndependent", dict(ok, indep=[[12500, 40000]])),
+            ("ConditionalOutsideFittedRange", dict(ok, extreme=[[4000, 6000]])),
             ("SampleFinite", dict(ok, finite=False))]
     good = [dict(ok), dict(kind="hist", exc="", draws=draws, dig=[1, 1, 2]),
             dict(kind="hist", exc="", draws=gd, dig=[1, 1, 2])]
@@ -349,11 +473,12 @@ def run(ctx):
     ctx.assumptions = ["DKW bound at error probability 1e-12 per comparison (<= 2e4 comparisons per run)",
                        "positions of a stream are compared as draw histories; samples drawn from the same stream at "
                        "positions that are not comparable are not judged ('unk')",
-                       "integer seeds a != b != c; Generators g, g' are created from the same seed c"]
+                       "integer seeds a = 0, b, c pairwise different; Generators g, g' are created from the same seed c"]
     ctx.model_check("Rosenblatt", ctx.pick("MC_Rosenblatt_c07_quick.cfg", "MC_Rosenblatt_c07_thorough.cfg"),
                     must_cover=("SampleStep",))
     ctx.model_check("Rosenblatt", "MC_Rosenblatt_c07_otherrow.cfg", expect_violation="InverseRosenblatt")
     ctx.model_check("Rosenblatt", "MC_Rosenblatt_c07_wrongcol.cfg", expect_violation="InverseRosenblatt")
+    ctx.model_check("Rosenblatt", "MC_Rosenblatt_c07_clipgiven.cfg", expect_violation="InverseRosenblatt")
     ctx.model_check("RngStreams", ctx.pick("MC_RngStreams_quick.cfg", "MC_RngStreams_thorough.cfg"),
                     must_cover=("Draw",))
     ctx.model_check("RngStreams", "MC_RngStreams_noadvance.cfg", expect_violation="GeneratorAdvances")
@@ -370,8 +495,13 @@ def run(ctx):
     ncmp = sum(len(r["overall"]) + len(r["given"]) + len(r["indep"]) for r in recs if r["kind"] == "ks")
     colsens = sum(1 for o in meta if o.get("colsens"))
     ctx.notes["models_sensitive_to_the_conditioning_column"] = colsens
+    ext = sum(o.get("extreme_regions", 0) for o in meta)
+    ctx.notes["fitted_models"] = sum(1 for o in meta if "extreme_regions" in o)
+    ctx.notes["extreme_conditioning_regions_judged"] = ext
     if not ctx.violations:
         selftest(ctx)
+        if ext < 2:
+            raise Machinery(f"vacuous: only {ext} conditioning regions outside the fitted range were judged")
         if colsens < 20:
             raise Machinery(f"vacuous: only {colsens} sampled models would notice a wrong conditioning column")
         if min(kinds.get(k, 0) for k in ("ks", "shape", "hist")) == 0:
